@@ -185,7 +185,7 @@ Lemma fs_unlink_spec : forall fs k fs1, fs_unlink W fs k = Some fs1 ->
   (forall c, c <> cn k -> content fs1 c = content fs c).
 Proof.
   unfold fs_unlink, content. intros fs k fs1 H.
-  destruct (has (cn k) (fs_files fs)); [|discriminate]. inversion H; subst; cbn [fs_files fs_dirs].
+  destruct (traversable W fs k && has (cn k) (fs_files fs)); [|discriminate]. inversion H; subst; cbn [fs_files fs_dirs].
   split; [reflexivity|]. split; [apply lookup_remove_same|]. intros c N. apply lookup_remove_other. exact N.
 Qed.
 
@@ -194,7 +194,8 @@ Lemma fs_write_spec : forall fs k s fs1, fs_write W fs k s = Some fs1 ->
   (forall c, c <> cn k -> content fs1 c = content fs c).
 Proof.
   unfold fs_write, content. intros fs k s fs1 H.
-  destruct (mem (dirname W (cn k)) (fs_dirs fs)); [|discriminate]. inversion H; subst; cbn [fs_files fs_dirs].
+  destruct (traversable W fs k && mem (dirname W (cn k)) (fs_dirs fs) && negb (mem (cn k) (fs_dirs fs))); [|discriminate].
+  inversion H; subst; cbn [fs_files fs_dirs].
   split; [reflexivity|]. split; [apply lookup_set_same|]. intros c N. apply lookup_set_other. exact N.
 Qed.
 
@@ -202,7 +203,7 @@ Lemma fs_makedirs_spec : forall fs d fs1, fs_makedirs W fs d = Some fs1 ->
   fs_files fs1 = fs_files fs /\ d <> [].
 Proof.
   unfold fs_makedirs. intros fs d fs1 H. destruct d as [|x d]; [discriminate|].
-  destruct (has _ _); [discriminate|]. inversion H; subst. cbn [fs_files]. split; [reflexivity | discriminate].
+  destruct (_ || _); [discriminate|]. inversion H; subst. cbn [fs_files]. split; [reflexivity | discriminate].
 Qed.
 
 (* ---- unlink phase ---------------------------------------------------------------------------- *)
@@ -546,7 +547,8 @@ Qed.
 
 Lemma read_raw : forall fs k t, w_translate W = false -> fs_read W fs k = Some t -> content fs (cn k) = Some t.
 Proof.
-  unfold fs_read, content. intros fs k t T H. rewrite T in H. destruct (lookup (cn k) (fs_files fs)); congruence.
+  unfold fs_read, content. intros fs k t T H. rewrite T in H. destruct (traversable W fs k); [|discriminate].
+  destruct (lookup (cn k) (fs_files fs)); congruence.
 Qed.
 
 Lemma write_ops_writes : forall texts files' k,
@@ -883,15 +885,17 @@ Qed.
 (* any two spellings of the same file give the same disk and the same outcome *)
 Theorem edit_file_spelling : forall fs p p' body,
   cn (ppath W p) = cn (ppath W p') ->
+  traversable W fs (ppath W p) = traversable W fs (ppath W p') ->      (* both spellings resolve (or neither) *)
   fst (fst (edit_file W fs p body)) = fst (fst (edit_file W fs p' body)) /\
   snd (edit_file W fs p body) = snd (edit_file W fs p' body).
 Proof.
-  intros fs p p' body E. unfold edit_file, fs_read, fs_write. rewrite E.
+  intros fs p p' body E T. unfold edit_file, fs_read, fs_write. rewrite E, T.
+  destruct (traversable W fs (ppath W p')); [|split; reflexivity].
   destruct (lookup (cn (ppath W p')) (fs_files fs)) as [raw|]; [|split; reflexivity].
   destruct (parse W _) as [m|]; [|split; reflexivity].
   destruct (body m) as [m'|]; [|split; reflexivity].
-  destruct (negb _); [|split; reflexivity].
-  destruct (mem _ _); split; reflexivity.
+  destruct (negb (str_eqb _ _)); [|split; reflexivity].
+  destruct (_ && _); split; reflexivity.
 Qed.
 
 End Proofs.
